@@ -272,6 +272,14 @@ func runRoundtripMode() {
 			}
 		}
 		if !oc.full {
+			// the Go reader did not return every record (reported above for C01). The bytes are
+			// still judged on their own: the independent decoder must decode them to the records
+			// written (C02 is about the bytes, whatever the Go reader makes of them).
+			if ps := parseStream(res.stream); res.werr == "" && ps.err == nil && len(res.truths) > 0 {
+				printSchemaLine()
+				emit(fmt.Sprintf("sd values %s %s %s", schemaID, root.name, hx(ps.equivalent())), "OK dv=0|"+strings.Join(res.truths, "|")+"|END")
+				stats["sd-values-ops"]++
+			}
 			continue
 		}
 		ps := parseStream(res.stream)
